@@ -172,3 +172,39 @@ def cache_initial_data_leak(f, **kw):
         if other is None or not any(other == f"init.{src}.{c['sa']}" for c in feeding):
             return False
     return True
+
+
+def _fault_of(f):
+    for e in ((f.result or {}).get("item") or {}).get("ev", []):
+        if e["k"] == "FAULT":
+            return e
+    return None
+
+
+def remote_dies_while_idle(f, **kw):
+    """D11: a remote simulator whose connection ends while NO request is outstanding: the channel's
+    receiver has already ended, so the next request is never answered and run() hangs (all other C14
+    clauses of such a run are consequences of the hang)."""
+    fl = _fault_of(f)
+    return bool(fl) and fl["kind"] == "eof_idle" and (f.result["outcome"]["r"] == "deadlock")
+
+
+def connection_reset(f, **kw):
+    """D23: the connection of a remote simulator is RESET (read error, not a clean EOF): the channel's
+    receiver dies without signalling the end of requests, RemoteProxy.stop() raises ConnectionResetError
+    from World.shutdown() - the remaining simulators are not stopped and the loop is not closed."""
+    fl = _fault_of(f)
+    return bool(fl) and fl["kind"].startswith("reset")
+
+
+def pending_tasks_after_failure(f, **kw):
+    """D12: after a simulator failure run() ended (raised / returned after logging), the loop was
+    closed, every simulator was stopped - but sim_process tasks (and their helper tasks) of the
+    OTHER simulators were still pending at loop.close()."""
+    if f.clause != "C14_pending_event_loop_work_left_behind":
+        return False
+    out = (f.result or {}).get("outcome") or {}
+    if out.get("r") in ("deadlock", "livelock"):
+        return False
+    end = [e for e in f.result["item"]["ev"] if e["k"] == "END"]
+    return bool(end) and end[-1].get("closed") is True and all(n.startswith(("Runner for", "Task")) for n in end[-1].get("pendnames", []))
